@@ -160,6 +160,57 @@ def check_whole_audit(case, st):
         st.violation('whole-audit:rate-check-did-not-run', d)
 
 
+def unanswered_cases():
+    """a whole audit in which connection k to the selected address gets no answer within the timeout (connect times out), or is
+    refused: the connections after it still go where the options say"""
+    out = []
+    for rmode in ('v4v6', 'v6v4', 'mixed'):
+        for fam in FAMILY_OPTS:
+            for k in (1, 2, 3, 4):
+                for kind in ('timeout', 'refuse'):
+                    out.append(('unanswered', rmode, fam, k, kind))
+    return out
+
+
+def work_unanswered(chunk, st):
+    for case in chunk:
+        _t, rmode, fam, k, kind = case
+        host = 'host.example'
+        ans = resolver_answer('name', host, rmode)
+        pref = family_pref(fam)
+        exp = expected_addresses(ans, pref)
+        servers = {}
+        for f, ip in ans:
+            servers[(ip, 22)] = P.Server(label='%s@22' % ip, kex=['curve25519-sha256', 'diffie-hellman-group-exchange-sha256'], key=['ssh-ed25519', 'rsa-sha2-512'],
+                                         host_keys=P.standard_host_keys(['ssh-ed25519', 'rsa-sha2-512']), gex=P.GexPolicy([2048, 4096], P.STRICT))
+        faults = {('%s@22' % exp[0][1], k, -1): (kind,)} if exp else {}
+        w = vnet.World(servers=servers, resolver={host: ans}, faults=faults)
+        res = runner.run_cli(['-n'] + FAMILY_OPTS[fam] + [host], w)
+        st.execution(w, outcome=('unanswered', fam, rmode, res.status), root=case, nontrivial=case)
+        d = {'resolver': rmode, 'family': fam, 'connection_without_answer': k, 'how': kind, 'status': res.status}
+        if res.hang or res.exc:
+            st.violation('unanswered-connection:crash-or-hang', dict(d, hang=res.hang, exc=res.exc))
+            continue
+        want = [ip for _f, ip in exp or []]
+        # one group per name resolution: the addresses dialled after it, consecutive repeats (the rate check dials one address many times) folded
+        groups, asked = [], []
+        for ev in w.log:
+            if ev[0] == 'resolve':
+                groups.append([])
+                asked.append(ev[3])
+            elif ev[0] == 'connect' and groups and (not groups[-1] or groups[-1][-1] != ev[2]):
+                groups[-1].append(ev[2])
+        allowed_q = {(): (0,), (4,): (int(V4),), (6,): (int(V6),), (4, 6): (0, int(V4), int(V6)), (6, 4): (0, int(V4), int(V6))}[tuple(pref)]
+        for i, g in enumerate(groups):
+            if g != want[:len(g)]:
+                st.violation('unanswered-connection:later-connections-leave-the-requested-families-or-order:%s' % fam, dict(d, resolution=i, dialled=g, options_allow_in_order=want))
+                break
+            if len(pref) == 1 and asked[i] not in allowed_q:
+                st.violation('unanswered-connection:resolver-asked-for-another-family:%s' % fam, dict(d, resolution=i, asked_family=asked[i]))
+                break
+    st.sample({'unanswered': [list(x) for x in chunk[:2]]}, cap=4)
+
+
 def label_text(kind, host, eport):
     if eport == 22:
         return host
@@ -439,6 +490,7 @@ def run(tier, seed):
     st = par.pmap(work, cs)
     for wc in whole_audit_cases():
         check_whole_audit(wc, st)
+    par.pmap(work_unanswered, unanswered_cases(), stats=st, chunk=4)
     me = multi_entry_cases()
     par.pmap(work_multi_entry, me if tier != 'quick' else me[::3], stats=st, chunk=8)
     check_direct(st)
